@@ -78,6 +78,10 @@ MODELS = {
     "future": ({"sims": [_eb("Sa", (), True), _eb("Sb"), _hy("Sc")],
                 "conns": [_c("Sa", "Sb", "e", "ti", shift=2), _c("Sc", "Sb", "e", "ti2")],
                 "until": 2}, {"next_offs": (0, 1), "fut_offs": (0, 1, 2)}),
+    # initial events at LATER times, two for one simulator (World.set_initial_event adds a step, it does not replace the pending ones)
+    "initial_events": ({"sims": [dict(_hy("Sa"), initevs=[2]), dict(_eb("Sb"), initevs=[2, 1])],
+                        "conns": [_c("Sa", "Sb", "e", "ti")],
+                        "until": 3}, {"next_offs": (0, 1), "fut_offs": (0,)}),
     # a server of asynchronous requests with one agent
     "async": ({"sims": [_tb("Sa"), _tb("Sb")],
                "conns": [{"src": "Sa", "dst": "Sb", "sa": "p", "da": "i", "async": True}],
@@ -95,11 +99,11 @@ MODELS = {
 # property -> [(model name, scenario overrides)]
 CONFIGS = {
     "C01": [("pair_data", {}), ("siblings", {}), ("weakloop", {}), ("two_delays", {"lazy": False}), ("async", {})],
-    "C02": [("pair_data", {"lazy": False}), ("future", {}), ("two_delays", {}), ("trigger_chain", {"lazy": False}), ("siblings", {"lazy": False})],
+    "C02": [("pair_data", {"lazy": False}), ("future", {}), ("two_delays", {}), ("trigger_chain", {"lazy": False}), ("siblings", {"lazy": False}), ("initial_events", {})],
     "C03": [("pair_data", {}), ("pair_data", {"cache": False}), ("chain3", {}), ("chain3", {"cache": False, "lazy": False}),
             ("two_sources", {}), ("two_sources", {"cache": False})],
     "C05": [("future", {}), ("future", {"lazy": False}), ("two_delays", {}), ("trigger_chain", {}), ("weakloop", {"lazy": False})],
-    "C07": [("trigger_loop", {}), ("trigger_chain", {}), ("two_delays", {}), ("pair_data", {"lazy": False})],
+    "C07": [("trigger_loop", {}), ("trigger_chain", {}), ("two_delays", {}), ("pair_data", {"lazy": False}), ("initial_events", {})],
     "C09": [("siblings", {}), ("siblings", {"maxloop": 1}), ("weakloop", {"maxloop": 1})],
     "C10": [("fanout", {}), ("chain3", {}), ("pair_data", {}), ("async", {})],
     "C13": [("faults", {}), ("faults", {"lazy": False, "cache": False})],
